@@ -9,12 +9,13 @@
      Stored_eq w         stored inbound + 1 = next_num_in and stored outbound + 1 = next_num_out;
      Inv w               Stored_eq, journal clean (committed = current), every journaled number below its live counter, counters
                          positive, RESENDREQ_AWAITING only with a positive watermark;
-     class_free w h      no operation of h, run from w, is in a known-finding class:
+     class_free h        no operation of h is in a known-finding class:
         KF_D11  inbound SequenceReset that is finalized and whose NewSeqNo is not its own MsgSeqNum + 1,
-        KF_D12  inbound ResendRequest whose servicing rewinds the outbound counter and does not reach the restore,
-        KF_D20  application-sent frame carrying its own number (SequenceReset / PossDup).
-   The D22 class (peer Logout never counted) and the D14 class (death between transport write and journal write) do not break
-   Stored_eq; they are exhibited by their own refuted theorems. *)
+        KF_D20  application-sent SequenceReset without GapFillFlag and without PossDupFlag (journaled under its own number).
+   The model describes the code WITH the repair of D12 (fixes/D12-resend-keeps-journal.patch): servicing a ResendRequest
+   writes neither journal nor counters, PossDup copies and gap fills are not journaled; the former class KF_D12 is gone
+   (C09_resend_keeps_journal).  The D22 class (peer Logout never counted) and the D14 class (death between transport
+   write and journal write) do not break Stored_eq; they are exhibited by their own refuted theorems. *)
 From Coq Require Import ZArith List Bool.
 From AF Require Import Fix.Restart Lemmas.RestartL.
 Import ListNotations.
@@ -23,17 +24,17 @@ Open Scope Z_scope.
 (* at every quiescent point of every history that avoids the known classes (any number of graceful restarts inside),
    the stored counters are the live counters - 1 *)
 Theorem C09_stored_eq_partial : forall r h1 h2,
-  class_free (fresh r) (h1 ++ h2) = true -> Stored_eq (run (fresh r) h1).
+  class_free (h1 ++ h2) = true -> Stored_eq (run (fresh r) h1).
 Proof. exact stored_eq_partial. Qed.
 Print Assumptions C09_stored_eq_partial.
 
 (* ... and the whole ledger invariant holds *)
-Theorem C09_ledger_invariant_partial : forall r h, class_free (fresh r) h = true -> Inv (run (fresh r) h).
+Theorem C09_ledger_invariant_partial : forall r h, class_free h = true -> Inv (run (fresh r) h).
 Proof. exact invariant_partial. Qed.
 Print Assumptions C09_ledger_invariant_partial.
 
 (* one operation outside the classes preserves the invariant from ANY world that satisfies it *)
-Theorem C09_step_preserves : forall w o, Inv w -> KF_D11 o = false -> KF_D20 o = false -> KF_D12 w o = false ->
+Theorem C09_step_preserves : forall w o, Inv w -> KF_D11 o = false -> KF_D20 o = false ->
   Inv (run_op w o) /\ (o <> ORestart -> Step w (run_op w o)).
 Proof. exact op_step. Qed.
 Print Assumptions C09_step_preserves.
@@ -41,25 +42,36 @@ Print Assumptions C09_step_preserves.
 (* D11: a gap fill spanning several numbers leaves the stored inbound counter at the frame's own number; the restarted
    endpoint expects 3 where the old object expected 6, and asks the peer to resend although nothing was lost *)
 Theorem C09_gapfill_lag_refuted :
-  exists r h o, class_free (fresh r) h = true /\ KF_D11 o = true /\
+  exists r h o, class_free h = true /\ KF_D11 o = true /\
     let w := run (fresh r) (h ++ [o]) in
     ~ Stored_eq w /\ nin w = 6 /\ sin (jt w) = 2 /\ nin (restart w) = 3
     /\ has_resend (writes (log (run (restart w) (logon_ops r 6)))) = true.
 Proof. exact gapfill_lag_refuted. Qed.
 Print Assumptions C09_gapfill_lag_refuted.
 
-(* D12: a ResendRequest over a range that contains a journaled PossDup copy aborts after the rewind: the live outbound
-   counter is 2 where 4 numbers were used, the stored one is 2 *)
-Theorem C09_resend_abort_refuted :
-  exists r h o, class_free (fresh r) h = true /\ KF_D12 (run (fresh r) h) o = true /\
-    let w0 := run (fresh r) h in let w := run_op w0 o in
-    ~ Stored_eq w /\ nout w0 = 4 /\ nout w = 2 /\ sout (jt w) = 2 /\ st w = Handling.
-Proof. exact resend_abort_refuted. Qed.
-Print Assumptions C09_resend_abort_refuted.
+(* former D12: servicing a ResendRequest - whatever its range, whatever the journal holds, from ANY world, whether it
+   completes or raises - executes no SQL statement, leaves the journal and both live counters as they were, and puts
+   nothing original on the wire *)
+Theorem C09_resend_keeps_journal : forall f w r w', process_resend f w = (r, w') ->
+  db w' = db w /\ nin w' = nin w /\ nout w' = nout w
+  /\ exists l, log w' = log w ++ l /\ nstmts l = O /\ (forall g, In g (writes l) -> original g = false).
+Proof. exact resend_keeps_journal. Qed.
+Print Assumptions C09_resend_keeps_journal.
 
-(* D20: an application-sent SequenceReset is journaled under its own number without consuming it *)
+(* the former D12 witness: a second ResendRequest over an already replayed range is answered like the first, the journal
+   keeps the three original rows, next_num_out stays 4 *)
+Example C09_resend_twice :
+  class_free h_resend2 = true /\
+  let w := run (fresh Acceptor) h_resend2 in
+  Stored_eq w /\ nout w = 4 /\ sout (jt w) = 3 /\ nin w = 4 /\ st w = Active
+  /\ rout (jt w) = [logon_frame 1; app_frame 2 1; app_frame 3 2]
+  /\ skipn 3 (writes (log w)) = [mkF TApp 3 true 2 0; mkF TApp 2 true 1 0; mkF TApp 3 true 2 0].
+Proof. exact resend_twice_example. Qed.
+Print Assumptions C09_resend_twice.
+
+(* D20: an application-sent SequenceReset without GapFillFlag is journaled under its own number without consuming it *)
 Theorem C09_app_seqreset_refuted :
-  exists r h o, class_free (fresh r) h = true /\ KF_D20 o = true /\
+  exists r h o, class_free h = true /\ KF_D20 o = true /\
     let w := run (fresh r) (h ++ [o]) in
     ~ Stored_eq w /\ nout w = 2 /\ sout (jt w) = 2 /\ nout (restart w) = 3.
 Proof. exact app_seqreset_refuted. Qed.
@@ -73,7 +85,7 @@ Print Assumptions C09_restart_counters.
 
 (* ... and after every class-free history the next Logon exchange with a peer whose Logon is numbered next_num_in ends
    ACTIVE, the only frame written is our Logon under the old object's next_num_out: no ResendRequest *)
-Theorem C09_restart_resumes : forall r h, class_free (fresh r) h = true ->
+Theorem C09_restart_resumes : forall r h, class_free h = true ->
   let w := run (fresh r) h in
   let w' := restart w in
   nin w' = nin w /\ nout w' = nout w
@@ -87,13 +99,13 @@ Print Assumptions C09_restart_resumes.
    that point resumes with the next number, and in every class-free continuation (further restarts included) every
    original frame it hands to the transport carries a larger number *)
 Theorem C09_no_number_reuse : forall r h m w1,
-  class_free (fresh r) h = true -> own_number m = false ->
+  class_free h = true -> own_number m = false ->
   let w := run (fresh r) h in
   send_msg m w = (inl tt, w1) ->
   let w2 := crash_at (length (log w1)) w1 in
   writes (log w1) = writes (log w) ++ [out_frame m (nout w)]
   /\ nin w2 = nin w /\ nout w2 = nout w + 1
-  /\ forall h', class_free w2 h' = true ->
+  /\ forall h', class_free h' = true ->
        forall f, In f (skipn (length (allwire w2)) (allwire (run w2 h'))) -> original f = true -> nout w < f_seq f.
 Proof. exact no_number_reuse. Qed.
 Print Assumptions C09_no_number_reuse.
@@ -101,7 +113,7 @@ Print Assumptions C09_no_number_reuse.
 (* D14: death after the transport write of a send and before its journal write: the frame is on the wire, the restarted
    endpoint has the old next_num_out and sends a DIFFERENT original message under the same number *)
 Theorem C09_crash_before_journal_refuted :
-  exists r h m k h', class_free (fresh r) h = true /\ own_number m = false /\
+  exists r h m k h', class_free h = true /\ own_number m = false /\
     let w := run (fresh r) h in
     exists w1, send_msg m w = (inl tt, w1) /\
     (length (log w) < k < length (log w1))%nat /\
@@ -117,7 +129,7 @@ Print Assumptions C09_crash_before_journal_refuted.
    Stored_eq holds - but the Logout was never counted: after the restart the peer's Logon numbered 3 is answered with a
    ResendRequest and the session is not ACTIVE *)
 Theorem C09_peer_logout_uncounted_refuted :
-  exists r h, class_free (fresh r) h = true /\ inbound_seqs h = [1; 2] /\
+  exists r h, class_free h = true /\ inbound_seqs h = [1; 2] /\
     let w := run (fresh r) h in
     Stored_eq w /\ nin w = 2 /\ nin (restart w) = 2
     /\ let w2 := run (restart w) (logon_ops r 3) in
@@ -147,8 +159,7 @@ Print Assumptions C09_duplicate_inbound_row.
 (* non-vacuity: a class-free history with a gap, our ResendRequest, replay, gap fills, a TestRequest answered, a peer
    ResendRequest serviced completely, a restart, the next Logon exchange and a send *)
 Example C09_nonvacuous :
-  class_free (fresh Acceptor) h_nonvac = true
-  /\ count_both (new_effects (run (fresh Acceptor) (firstn 10 h_nonvac)) (OIn (mkF TResend 8 false 2 0))) = 2%nat
+  class_free h_nonvac = true
   /\ let w := run (fresh Acceptor) h_nonvac in
      nin w = 10 /\ nout w = 7 /\ sin (jt w) = 9 /\ sout (jt w) = 6 /\ st w = Active /\ dlv w = [].
 Proof. exact nonvacuous. Qed.
